@@ -140,6 +140,9 @@ func (c *codecComp) Exec(t []string) (extra []string, out string, eff bool) {
 		// the resolved op carries the real bytes and the absolute cut positions
 		t2 := []string{"hex=" + hex.EncodeToString(stream), "cuts=" + strings.Join(ns, ",")}
 		return append([]string{"#resolved"}, t2...), "ok " + strings.Join(got, ","), true
+	case "http":
+		x, o := httpExchange(t)
+		return x, o, true
 	case "ws":
 		lib, _ := FindStr("lib", t)
 		writers, _ := strconv.Atoi(mustStr(FindStr("writers", t)))
@@ -282,6 +285,10 @@ loop:
 }
 
 func (c *codecComp) Gen(r *rand.Rand, idx int, emit func(string)) {
+	if idx%5 == 3 {
+		genHTTP(r, idx, emit)
+		return
+	}
 	kinds := []string{"req", "resp", "err"}
 	flav := []string{"plain", "braces", "escapes", "unicode", "html"}
 	sizes := []int{0, 1, 7, 60, 300, 511, 512, 513, 700, 1500, 5000}
